@@ -376,6 +376,12 @@ fn norm<F: Scalar>(p: &Params) {
     let mu = |k: i64| if mutk == k { F::lit(1.0) } else { F::lit(0.0) };
     let (zero, one) = (F::lit(0.0), F::lit(1.0));
     let mut x = matrix::<F>("x", n, pc, b);
+    // scale=k: entries are integers times 2^k (exact): rows of very small / very large norm
+    let scale = p.get("scale", 0) as i32;
+    let unit = F::lit(2.0f64.powi(scale));
+    if scale != 0 {
+        x.mapv_inplace(|v| v * unit);
+    }
     for i in 0..n {
         if i as i64 == zero_row {
             for j in 0..pc {
@@ -429,7 +435,7 @@ fn norm<F: Scalar>(p: &Params) {
             2 => NF::sqrt(xr.iter().map(|&v| v * v).sum::<F>()),
             _ => xr.iter().fold(zero, |f, &v| NF::max(fabs(v), f)),
         };
-        let t_x = F::lit(b as f64 * (2.0f64).powi(-30));
+        let t_x = F::lit(b as f64 * (2.0f64).powi(-30 + scale));
         for j in 0..pc {
             cg(2, "norm: output * norm of the input row == input", close(r[j] * nn, x[(i, j)] + mu(2), t_x));
         }
